@@ -1,23 +1,185 @@
 (*  C15 — The Simulator reports what the public API would have produced.
    
-    PROVED: the simulator's Radius class selects its neighbours from a cache of distances; when the cache was
-    computed with the bandit's own metric (what the repaired code guarantees, fix D12: one cache per metric) the
-    selection IS the library's neighbourhood, for every radius, history and query.
-    ..._partial: this is the only part of the simulator protocol carried by the model. The offline / online
-    drivers, the shared generator between the simulator classes and the original bandit, and the expectations
-    bookkeeping are checked on every run by the independent public-API replay (fit / predict / predict_expectations
-    / partial_fit on a deep copy); the online protocol of the neighbourhood classes is refuted on the code
-    (finding D13). *)
+    MODEL (SimRun.v, tied to simulator.py by the differential run harness/simcorr.py on every check): the simulator-specific
+    neighbourhood classes (neighbours read from a cache of distances shared between the bandits of a chunk, expectations
+    taken from the same call and recorded in row_arm_to_expectation), the replacement done by _train_bandits, the
+    offline driver and the online driver (per batch: predict all bandits, then partial_fit all bandits), over the
+    facade model of MAB.
+   
+    PROVED, for every data set, split, batch size, number of bandits, metric, hyper-parameter, partition (n_jobs) and generator:
+     * one predict call of a simulator class returns the predictions of the library class from the same generator state and
+       leaves the generator in the same state, over every context-free policy and over LinGreedy / LinUCB (the simulator
+       makes one more query on the worker's private policy copy than the library: irrelevant for the rows after it,
+       by the fit-forgets argument of C05/C07);
+     * the shared distance dictionary is sound: all replaced bandits of a simulation store the same contexts (after
+       training and after every online update), so another bandit's distances for the same metric are the bandit's own;
+       bandits of one simulation do not influence each other (offline and online);
+     * training and every online update of a replaced bandit produce the library bandit's state;
+     * OFFLINE: a replaced neighbourhood bandit reports the predictions of fit + predict through the public API;
+     * ONLINE: a contextual bandit the simulator keeps (linear, Clusters, TreeBandit) is driven exactly through
+       predict / predict_expectations / partial_fit; a replaced neighbourhood bandit reports the predictions of the library
+       bandit driven by predict / partial_fit (..._partial: NOT of the public protocol with the expectations read in
+       between - that statement is refuted on the model with a concrete witness, finding D13, and on the code).
+    NOT MODELLED: the > 1 GB chunking branch (one chunk per run / batch here), confusion matrices, plotting; LinTS under a
+    neighbourhood policy is excluded (finding D8); context-free bandits are driven by n successive predict() calls by
+    definition of the model (checked against the Simulator by the correspondence, against the API by the replay relation). *)
 From Coq Require Import List ZArith Bool Arith QArith Qcanon Permutation.
-From MW Require Import Num Assoc AssocFacts Rng Par CF CFInv CFClean CFForget CFSpec Matrix Lin Warm WarmInv Nbr NbrFacts NbrIndep LshFacts Clu Tree CellFacts Mab FacadeCF FacadeArms MoreFacts NumLaws CFAlg Sim Extra QcInst.
+From MW Require Import Num Assoc AssocFacts Rng Par CF CFInv CFClean CFForget CFSpec Matrix Lin Warm WarmInv Nbr NbrFacts NbrIndep LshFacts Clu Tree CellFacts Mab FacadeCF FacadeArms MoreFacts NumLaws CFAlg Sim Extra QcInst OrderFacts ExpIrrel LinInv FacadeLin LpInv NbrInv CluTreeInv FacadeAll ToyFacts C09All C10All LinForget LinSim MatrixFacts GaussJordan LinSpec NbrIndepGen CluIndep C17Lin WarmIdem C14More LshScale TreeLeaf Rename PopSpec CopyFacts StatFacts CluBatch LinWarm SimRun SimRunFacts SimDrivers SimD13.
 Import ListNotations.
 
-Theorem C15_simulator_radius_selection_refines_library_partial :
+Theorem C15_simulator_radius_selection_refines_library :
   forall (R A : Type) (N : Num R) (G : Type) (s : (@nbr R A G)) (r : R) (row : list R) (orc : list nat),
   n_kind s = NRadius r ->
   neighborhood N s row orc =
   Some (sim_radius_select N (map (fun c : list R => distance N (n_metric s) c row) (n_cx s)) r).
 Proof. exact @sim_radius_refines_library. Qed.
-Print Assumptions C15_simulator_radius_selection_refines_library_partial.
+Print Assumptions C15_simulator_radius_selection_refines_library.
 
+Theorem C15_simulator_predict_refines_library_predict :
+  forall (R A G : Type) (N : Num R) (aeqb : A -> A -> bool) (RG : RngOps R G),
+  (forall x y : A, aeqb x y = true <-> x = y) ->
+  rng_lengths_ok RG ->
+  forall (s : (@nbr R A G)) (g : G) (cx : (@mat R)) (orcs : list (list nat)) (sizes : list nat),
+  lp_sim_ok N (n_lp s) ->
+  let (r, g1) := simnbr_predict N aeqb RG s g cx (sim_distances N s cx) orcs sizes in
+  nbr_predict N aeqb RG s g cx orcs sizes true = (option_map preds_of r, g1).
+Proof. exact @sim_predict_refines_library. Qed.
+Print Assumptions C15_simulator_predict_refines_library_predict.
+
+Theorem C15_shared_distance_cache_is_sound :
+  forall (R A G : Type) (N : Num R) (aeqb : A -> A -> bool) (RG : RngOps R G) 
+    (H : (@mat R)) (bs : list (@sbandit R A G)) (dc : (@dcache R)) (cx : option (@ctxs R)) (n lo hi : nat) 
+    (orcs : list (@borc R A)),
+  Forall (shares_history H) bs ->
+  dc_valid N H (octx cx) dc ->
+  sim_query_all N aeqb RG bs dc cx n lo hi orcs = sim_query_each N aeqb RG bs cx n lo hi orcs.
+Proof. exact @shared_cache_sound. Qed.
+Print Assumptions C15_shared_distance_cache_is_sound.
+
+Theorem C15_trained_bandits_share_the_history :
+  forall (R A G : Type) (N : Num R) (aeqb : A -> A -> bool) (RG : RngOps R G) 
+    (ms : list (@mab R A G)) (train : (@batch R A)) (cx : (@ctxs R)) (orcs : list (@oracle R A)),
+  b_cx train = Some cx -> Forall (shares_history cx) (map fst (sim_train_all N aeqb RG ms train orcs)).
+Proof. exact @trained_bandits_share_the_history. Qed.
+Print Assumptions C15_trained_bandits_share_the_history.
+
+Theorem C15_offline_bandits_do_not_influence_each_other :
+  forall (R A G : Type) (N : Num R) (aeqb : A -> A -> bool) (RG : RngOps R G)
+    (bs : list (sbandit * (@report R A))) (test : (@batch R A)) (orcs : list (@borc R A)) (H : (@mat R)),
+  Forall (shares_history H) (map fst bs) ->
+  sim_offline N aeqb RG bs test orcs =
+  report_all bs
+    (sim_query_each N aeqb RG (map fst bs) (b_cx test) (length (b_ds test)) 0 (length (b_ds test)) orcs).
+Proof. exact @offline_bandits_do_not_influence_each_other. Qed.
+Print Assumptions C15_offline_bandits_do_not_influence_each_other.
+
+Theorem C15_online_bandits_do_not_influence_each_other :
+  forall (R A G : Type) (N : Num R) (aeqb : A -> A -> bool) (RG : RngOps R G) 
+    (batches : list (@batch R A)) (bs : list (sbandit * (@report R A))) (lo : nat) (orcs : list (list (@borc R A))) 
+    (H : (@mat R)),
+  Forall (shares_history H) (map fst bs) ->
+  sim_online N aeqb RG bs lo batches orcs = per_bandit N aeqb RG bs lo batches orcs.
+Proof. exact @online_bandits_do_not_influence_each_other. Qed.
+Print Assumptions C15_online_bandits_do_not_influence_each_other.
+
+Theorem C15_training_a_replaced_bandit_gives_the_library_state :
+  forall (R A G : Type) (N : Num R) (aeqb : A -> A -> bool) (RG : RngOps R G) 
+    (m : (@mab R A G)) (s : (@nbr R A G)) (ds : list A) (rs : list R) (cx : option (@ctxs R)) (orc : (@oracle R A)),
+  m_imp m = INbr s ->
+  fresh_nbr s ->
+  fit_args_ok N m ds rs cx = true ->
+  let (b, ok) := sim_train N aeqb RG m ds rs cx orc in
+  let (m1, o) := step N aeqb RG m (Fit ds rs cx orc) in
+  ok = true /\
+  o = ODone /\
+  (exists (s1 : (@nbr R A G)) (g1 : G),
+     b = SNbr s1 g1 [] /\ m1 = lib_of s1 g1 /\ n_lp s1 = fst (lp_binarize (n_lp s) ds rs)).
+Proof. exact @sim_train_refines_api. Qed.
+Print Assumptions C15_training_a_replaced_bandit_gives_the_library_state.
+
+Theorem C15_updating_a_replaced_bandit_gives_the_library_state :
+  forall (R A G : Type) (N : Num R) (aeqb : A -> A -> bool) (RG : RngOps R G) 
+    (s : (@nbr R A G)) (g : G) (rae : list (list (A * option R))) (ds : list A) (rs : list R) 
+    (cx : (@ctxs R)) (orc : (@oracle R A)),
+  fit_args_ok N (lib_of s g) ds rs (Some cx) = true ->
+  width_ok (n_cx s) cx = true ->
+  let (b, ok) := sim_update N aeqb RG (SNbr s g rae) ds rs (Some cx) orc in
+  let (m1, o) := step N aeqb RG (lib_of s g) (PartialFit ds rs (Some cx) orc) in
+  ok = true /\
+  o = ODone /\
+  b = SNbr (nbr_partial_fit N s ds rs cx) g rae /\ m1 = lib_of (nbr_partial_fit N s ds rs cx) g.
+Proof. exact @sim_update_refines_api. Qed.
+Print Assumptions C15_updating_a_replaced_bandit_gives_the_library_state.
+
+Theorem C15_offline_neighbourhood_predictions_equal_public_api :
+  forall (R A G : Type) (N : Num R) (aeqb : A -> A -> bool) (RG : RngOps R G),
+  (forall x y : A, aeqb x y = true <-> x = y) ->
+  rng_lengths_ok RG ->
+  forall (m : (@mab R A G)) (s : (@nbr R A G)) (train test : (@batch R A)) (tcx qcx : list (list R)) (orcT op oe : (@oracle R A)),
+  m_imp m = INbr s ->
+  fresh_nbr s ->
+  lp_sim_ok N (n_lp s) ->
+  b_cx train = Some tcx ->
+  b_cx test = Some qcx ->
+  fit_args_ok N m (b_ds train) (b_rs train) (b_cx train) = true ->
+  let (b, _) := sim_train N aeqb RG m (b_ds train) (b_rs train) (b_cx train) orcT in
+  let
+  '(_, r) := sim_query1 N aeqb RG b (b_cx test) (length (b_ds test)) 0 (length (b_ds test)) op oe in
+   let (m1, _) := step N aeqb RG m (Fit (b_ds train) (b_rs train) (b_cx train) orcT) in
+   let (_, o) := step N aeqb RG m1 (Predict (b_cx test) op) in option_map fst r = out_arms o.
+Proof. exact @offline_neighbourhood_predictions_are_the_public_api's. Qed.
+Print Assumptions C15_offline_neighbourhood_predictions_equal_public_api.
+
+Theorem C15_online_kept_contextual_bandit_follows_the_public_protocol :
+  forall (R A G : Type) (N : Num R) (aeqb : A -> A -> bool) (RG : RngOps R G) 
+    (batches : list (@batch R A)) (m : (@mab R A G)) (p0 : list (option A)) (e0 : list (list (A * option R))) 
+    (lo : nat) (orcs : list (@borc R A)),
+  is_contextual (m_imp m) = true ->
+  let (_, rep) := sim_online1 N aeqb RG (SMab m) (Some (p0, e0)) lo batches orcs in
+  let (_, r) := api_online N aeqb RG m batches orcs in
+  match r with
+  | Some (p, e) => rep = Some (p0 ++ p, e0 ++ e)
+  | None => rep = None
+  end.
+Proof. exact @online_kept_contextual_bandit_is_the_public_protocol. Qed.
+Print Assumptions C15_online_kept_contextual_bandit_follows_the_public_protocol.
+
+Theorem C15_online_neighbourhood_bandit_equals_predict_update_protocol_partial :
+  forall (R A G : Type) (N : Num R) (aeqb : A -> A -> bool) (RG : RngOps R G),
+  (forall x y : A, aeqb x y = true <-> x = y) ->
+  rng_lengths_ok RG ->
+  forall (batches : list (@batch R A)) (s : (@nbr R A G)) (g : G) (rae : list (list (A * option R)))
+    (p0 : list (option A)) (e0 : list (list (A * option R))) (lo : nat) (orcs : list (@borc R A)),
+  lp_sim_ok N (n_lp s) ->
+  let (_, rep) := sim_online1 N aeqb RG (SNbr s g rae) (Some (p0, e0)) lo batches orcs in
+  let (_, r) := api_online_predict_only N aeqb RG (lib_of s g) batches orcs in
+  match r with
+  | Some p => rep_preds rep = Some (p0 ++ p)
+  | None => True
+  end.
+Proof. exact @online_neighbourhood_bandit_is_the_predict_update_protocol. Qed.
+Print Assumptions C15_online_neighbourhood_bandit_equals_predict_update_protocol_partial.
+
+Theorem C15_online_neighbourhood_public_protocol_refuted :
+  rep_preds
+    (snd
+       (sim_online1 QcNum Z.eqb ToyRng (SNbr d13_trained 0%nat []) (Some ([], [])) 0
+          [d13_batch; d13_batch2] [d13_borc; d13_borc])) = Some [Some 10%Z; Some 20%Z] /\
+  option_map fst
+    (snd
+       (api_online QcNum Z.eqb ToyRng (lib_of d13_trained 0%nat) [d13_batch; d13_batch2]
+          [d13_borc; d13_borc])) = Some [Some 10%Z; Some 30%Z] /\
+  snd
+    (api_online_predict_only QcNum Z.eqb ToyRng (lib_of d13_trained 0%nat) [
+       d13_batch; d13_batch2] [d13_borc; d13_borc]) = Some [Some 10%Z; Some 20%Z].
+Proof. exact @online_public_protocol_refuted. Qed.
+Print Assumptions C15_online_neighbourhood_public_protocol_refuted.
+
+(* non-vacuity: the hypotheses on the bandit handed to the Simulator hold for a freshly constructed Radius bandit *)
+Example C15_hypotheses_are_met :
+  fresh_nbr d13_nbr /\ lp_sim_ok QcNum (n_lp d13_nbr) /\ rng_lengths_ok ToyRng.
+Proof.
+  split; [reflexivity|]. split; [|exact toy_rng_lengths_ok].
+  split; [apply keys_ok_init; repeat constructor; simpl; intuition discriminate | apply clean_init].
+Qed.
 
